@@ -56,6 +56,14 @@ func c06Shapes() []PShape {
 			out = append(out, s)
 		}
 	}
+	// the narrow integer formats: what does not fit the declared width is rejected like what does not fit int32
+	id := len(allShapes())
+	for _, loc := range []string{"path", "query", "header", "cookie"} {
+		for _, t := range []PType{{"uint16", "prim", J{"type": "integer", "format": "uint16"}}, {"int8", "prim", J{"type": "integer", "format": "int8"}}} {
+			out = append(out, PShape{ID: id, Loc: loc, T: t, Required: true, Mode: "schema"})
+			id++
+		}
+	}
 	return out
 }
 
@@ -150,6 +158,12 @@ func (s PShape) stimuli(ctx *Ctx) (map[int]J, error) {
 		if s.Required && s.Loc != "path" {
 			out[9] = s.rawRequest([]string{""})
 		}
+	case "uint16":
+		out[2] = bad("abc")
+		out[3] = bad("70000")
+	case "int8":
+		out[2] = bad("1x")
+		out[3] = bad("-129")
 	case "bool":
 		out[2] = bad("maybe")
 	case "arrI":
@@ -277,7 +291,7 @@ func genC06(ctx *Ctx) error {
 			if st < 0 {
 				st = 999
 			}
-			ty := map[string]int{"str": 0, "int32": 1, "bool": 2, "date": 3, "uuid": 4, "arrI": 5, "obj": 6}[strings.Split(r.Shape, "/")[3]]
+			ty := map[string]int{"str": 0, "int32": 1, "bool": 2, "date": 3, "uuid": 4, "arrI": 5, "obj": 6, "uint16": 7, "int8": 7}[strings.Split(r.Shape, "/")[3]]
 			fmt.Fprintf(&b, "  ⟨%d, %d, %d, %d, %v, %d, %v, %v, %d, %d⟩%s\n", r.FW, r.Loc, r.Kind, ty, r.Required, r.Stimulus, r.ErrH, r.Ran, st, r.Errs, sep)
 		}
 		b.WriteString("]\n")
@@ -295,7 +309,7 @@ func genC06(ctx *Ctx) error {
 }
 
 func runC06(ctx *Ctx) error {
-	ctx.Res.Rule = "exhaustive table: framework(7) x location(4) x {styled int32/bool/date/uuid/int-array/string, label and matrix arrays in the path, JSON content, pass-through} x required x applicable stimulus {absent, valid, valid with '%' and '+' (header, cookie), wrong type, overflow, bad date, bad uuid, malformed JSON, a JSON value followed by more data, wrong prefix, duplicated header, empty} x {default error path, configured error handler}; one request per cell; plus every subset of omitted parameters on a 5-parameter operation; CORR of the runtime model (value classes); CORR of the integer layer: boundary and seeded texts (signs, leading zeros, 32/64-bit bounds and their neighbours, junk, non-ASCII digits) through strconv.ParseInt and through the runtime binder into int32/int64 vs IntParse.parseInt; CORR of the date layer: fixed and seeded texts (leap days, month/day bounds, short and long fields, other separators, junk) through time.Parse and the runtime binder into openapi_types.Date vs DateParse.parse; the same for booleans (every letter-case spelling) and UUIDs (canonical, urn, braces, 32 digits, damaged texts) vs IntParse.parseBool / UuidParse.parse; non-trivial = every cell"
+	ctx.Res.Rule = "exhaustive table: framework(7) x location(4) x {styled int32/uint16/int8/bool/date/uuid/int-array/string, label and matrix arrays in the path, JSON content, pass-through} x required x applicable stimulus {absent, valid, valid with '%' and '+' (header, cookie), wrong type, overflow, bad date, bad uuid, malformed JSON, a JSON value followed by more data, wrong prefix, duplicated header, empty} x {default error path, configured error handler}; one request per cell; plus every subset of omitted parameters on a 5-parameter operation; CORR of the runtime model (value classes); CORR of the integer layer: boundary and seeded texts (signs, leading zeros, 32/64-bit bounds and their neighbours, junk, non-ASCII digits) through strconv.ParseInt and through the runtime binder into int32/int64 vs IntParse.parseInt; CORR of the date layer: fixed and seeded texts (leap days, month/day bounds, short and long fields, other separators, junk) through time.Parse and the runtime binder into openapi_types.Date vs DateParse.parse; the same for booleans (every letter-case spelling) and UUIDs (canonical, urn, braces, 32 digits, damaged texts) vs IntParse.parseBool / UuidParse.parse; non-trivial = every cell"
 	if err := corrCodec(ctx, "C06"); err != nil {
 		return err
 	}
